@@ -24,7 +24,7 @@ REQUIRED = {"subproblems": 20000, "postconditions": 20000,
             "tag:improving_direction_exists": 1000,
             "tag:normal_decreased": 1000}
 MIN_NONTRIVIAL = {"quick": 200, "thorough": 1000}
-PLAN = [("fuzz", 64, 1600), ("real", 300, 4000)]
+PLAN = [("fuzz", 64, 1600), ("real", 300, 4000), ("repotests", 1, 1)]
 PROP = "C16"
 
 
@@ -38,4 +38,9 @@ worker_init = subdrive.worker_init
 def run_case(case):
     if case["fam"] == "fuzz":
         return subdrive.fuzz_case(case, PROP)
+    if case["fam"] == "repotests":
+        from vlib import repotests
+        viols, counts = repotests.run(PROP)
+        return e2e.record(case, viols, tags=["fam:repotests"], counts=counts,
+                          nt="repotests")
     return subdrive.real_case(case, PROP)
